@@ -11,6 +11,7 @@ package header
 
 import (
 	"net/http"
+	"strconv"
 	"strings"
 	"time"
 )
@@ -288,17 +289,15 @@ func expectQuality(s string) (q float64, rest string) {
 	}
 	s = s[1:]
 	i := 0
-	n := 0
-	d := 1
-	for ; i < len(s); i++ {
-		b := s[i]
-		if b < '0' || b > '9' {
-			break
-		}
-		n = n*10 + int(b) - '0'
-		d *= 10
+	for i < len(s) && s[i] >= '0' && s[i] <= '9' {
+		i++
 	}
-	return q + float64(n)/float64(d), s[i:]
+	if i > 0 {
+		// any number of digits: an integer accumulator overflows beyond 18 of them
+		f, _ := strconv.ParseFloat("0."+s[:i], 64)
+		q += f
+	}
+	return q, s[i:]
 }
 
 func expectTokenOrQuoted(s string) (value string, rest string) {
